@@ -71,6 +71,54 @@ def decodeVariant (m : Mem) : Vars → Nat → Nat → Option Vs
   | .cons _ vs, k + 1, a => decodeVariant m vs k a
 end
 
+def Vs.get? : Vs → Nat → Option V
+  | .nil, _ => none
+  | .cons v _, 0 => some v
+  | .cons _ vs, n + 1 => vs.get? n
+
+/-- the component of a decoded value a projection path names (`none` when the
+    path does not fit the value: wrong shape, or another variant is live) -/
+def V.project : V → List Proj → Option V
+  | v, [] => some v
+  | .rec_ fs, .field n :: p =>
+    match fs.get? n with
+    | some c => c.project p
+    | none => none
+  | .enm tag fs, .variantField v n :: p =>
+    if tag = v then
+      match fs.get? n with
+      | some c => c.project p
+      | none => none
+    else none
+  | _, _ :: _ => none
+
+def Vs.set : Vs → Nat → V → Vs
+  | .nil, _, _ => .nil
+  | .cons _ vs, 0, x => .cons x vs
+  | .cons v vs, n + 1, x => .cons v (vs.set n x)
+
+/-- the value with the component a path names replaced (`none` when the path
+    does not fit the value) -/
+def V.update : V → List Proj → V → Option V
+  | _, [], x => some x
+  | .rec_ fs, .field n :: p, x =>
+    match fs.get? n with
+    | some c =>
+      match c.update p x with
+      | some c' => some (.rec_ (fs.set n c'))
+      | none => none
+    | none => none
+  | .enm tag fs, .variantField v n :: p, x =>
+    if tag = v then
+      match fs.get? n with
+      | some c =>
+        match c.update p x with
+        | some c' => some (.enm tag (fs.set n c'))
+        | none => none
+      | none => none
+    else none
+  | _, _ :: _, _ => none
+
 /-! ## the generated clone function, executed -/
 
 mutual
